@@ -22,21 +22,27 @@ LEVEL_TEXT = ("Proof (F/M): for every well-formed history and every pair of comm
               "on the set of common ancestors); GetAncestor walks equal iterated parent selection and fail exactly on an out-of-range index; "
               "CanFastForwardTo's five verdicts are characterised by the ancestor relation. Tied to the code by running both on random DAGs built "
               "through the datas/doltdb API (all ordered pairs on small graphs).")
-LEVEL_NOTE = ("Trusted: Coq kernel, Go harness + Python glue. Modelled, not verified: container/heap (a heap is modelled as the multiset of its "
-              "elements; only MaxHeight / pop-all-of-height are used by the code), Go map iteration + sort in findCommonCommit (modelled as least "
-              "address of the intersection), the prolly map iterator behind IterAllReverse (descending key order, from C18's sorted closure), branch-name "
-              "lookup in DoltDB.Resolve (each commit is the head of its own branch). The closure walk picks the greatest address among equal-height "
-              "candidates and the parents walk the least: both are deterministic and order independent, which is what the property demands; they can "
-              "differ from each other (recorded in the evidence tag 'variants-differ'). FindClosureCommonAncestor is test-only code and is not modelled. "
-              "SQL dolt_merge_base() is not driven (it calls the same GetCommitAncestor). The oracle (Corr.v) is the property evaluated by brute force on "
-              "the input graph; a Coq theorem 'oracle accepts model_obs' is not stated for C19 (its parts are the theorems listed), so model/oracle "
-              "agreement on the generated cases rests on the evaluation itself.")
+LEVEL_NOTE = ("Trusted: Coq kernel, Go harness + Python glue. The parents-list walk's priority queue is modelled as the code has it: a slice used as a "
+              "binary heap through container/heap (Push = append + up, Pop = swap + down + truncate; C19/HeapModel.v); hpush_correct / hpop_correct prove that "
+              "up/down keep the heap order for any Less that is a total preorder, heap_root_is_max that MaxHeight()/Pop yield a commit of maximal height, and "
+              "heap_refines_multiset that the walk over heaps equals the walk over multisets (the model used in the mb theorems); the correspondence runs the heap "
+              "model. Modelled, not verified: Go map iteration + sort in findCommonCommit (least address of the intersection), the prolly map iterator behind "
+              "IterAllReverse (descending key order, from C18's sorted closure), branch / hash lookup in DoltDB.Resolve (each commit is the head of its own branch; "
+              "the base name is handed to the model). The closure walk picks the greatest address among equal-height candidates and the parents walk the least: both "
+              "are deterministic and order independent, which is what the property demands; they can differ from each other (tag 'variants-differ'). "
+              "FindClosureCommonAncestor is test-only code and is not modelled. SQL surface: for histories built with dolt_commit / dolt_merge --no-ff / dolt_branch, "
+              "dolt_merge_base() and spec resolution through dolt_hashof(), dolt_log(rev) and AS OF (row set of a table with one row per commit) are compared with "
+              "the model; through SQL a rejected spec and a walk leaving the graph have the same error text and are told apart with the doltdb-level error. "
+              "oracle_accepts_model assumes, per case and checkable, that C44's parser splits '<base><suffix>' into base + parse_instructions(suffix) "
+              "(C44's own theorem for every accepted spec).")
 THEOREMS = ["mb_common", "mb_maximal", "mb_sym", "mb_none_iff", "fca_total", "mb_closure_spec", "mb_parents_spec", "mb_closure_sym",
-            "mb_parents_sym", "spec_walk_thm", "walk_app", "walk_repeat_first_parent", "can_ff_spec", "can_ff_true_iff"]
+            "mb_parents_sym", "spec_walk_thm", "walk_app", "walk_repeat_first_parent", "can_ff_spec", "can_ff_true_iff",
+            "hpush_correct", "hpop_correct", "heap_root_is_max", "heap_refines_multiset", "oracle_accepts_model"]
 RULE = ("the C18 DAG generators (5-60 commits; criss-cross ladders, multi-parent merges, duplicate parents, several roots); all ordered pairs when the "
         "graph has <= 9 commits, otherwise ~110 sampled ordered pairs always together with the swapped pair; specs 'b<i>' + 0-4 of ^ ^1 ^2 ^3 ^0 ~ ~n; "
         "non-trivial = some pair has a merge base different from both commits; distinct by graph + salt")
 ASSUMPTIONS = ["every commit is the head of its own branch b<i> (so DoltDB.CanFastForward and Resolve see it)",
+               "SQL-built histories have one root and at most two distinct parents per commit (what dolt_merge can create)",
                "'~n' counts in generated specs stay below 100"]
 REQUIRED_TAGS = ["mb-none", "mb-third", "mb-is-arg", "tie-at-max-height", "variants-differ", "root-dispatch", "spec-ok", "spec-walk-error",
                  "spec-parse-error", "spec-second-parent", "ff-ok", "ff-uptodate", "ff-ahead", "ff-diverged", "ff-noancestor",
